@@ -304,9 +304,34 @@ func RunModelBytes(b []byte, feed map[string]*ref.T, outNames []string) (res Res
 	return RunModel(m, feed, outNames)
 }
 
+// ScribbleIntrospection calls every accessor of the Model and overwrites what it returns (what a caller is handed
+// is the caller's to modify: filtering a name list in place, annotating a shape). None of it may reach the Model.
+func ScribbleIntrospection(m *gonnx.Model) {
+	for _, names := range [][]string{m.InputNames(), m.OutputNames(), m.ParamNames()} {
+		for i := range names {
+			names[i] = "scribbled"
+		}
+		if len(names) > 1 {
+			names[0], names[len(names)-1] = names[len(names)-1], names[0]
+		}
+		_ = append(names[:0], "shifted")
+	}
+	for _, shapes := range []onnx.Shapes{m.InputShapes(), m.OutputShapes()} {
+		for k, sh := range shapes {
+			for i := range sh {
+				sh[i].IsDynamic, sh[i].Size, sh[i].Name = !sh[i].IsDynamic, sh[i].Size+5, "scribbled"
+			}
+			delete(shapes, k)
+		}
+		shapes["scribbled"] = nil
+	}
+}
+
 func RunModel(m *gonnx.Model, feed map[string]*ref.T, outNames []string) (res Result) {
-	phase := "run"
+	phase := "introspection"
 	defer catch(&res, &phase)
+	ScribbleIntrospection(m)
+	phase = "run"
 	in := gonnx.Tensors{}
 	before := map[string]Snap{}
 	for k, t := range feed {
